@@ -110,12 +110,25 @@ def impl_to_spec(c, tier):
         c.cov["binding_selftest"] = "5 extra released bytes claimed at the failing step (line %d) -> rejected at line %d" % (k + 1, matched)
 
 
+def long_stream(c):
+    """A VMess stream longer than its 16-bit chunk counter: chunk-level edits near the end must still be refused (the
+    model's nothing-past-the-prefix rule holds at every position; position classes below the wrap are covered above)."""
+    rows = vh_json_lines(["c05-long"], timeout=900)
+    for o in rows:
+        if not o["ok"]:
+            c.violation("long stream %s: %s at chunk %d of %d: %s" % (o["proto"], o["op"], o["chunk"], o["of"], "; ".join(o["why"])), o)
+    c.add("long_stream_edits", len(rows))
+    if not rows:
+        raise vlib.ToolError("c05-long produced nothing")
+
+
 def run(tier):
     c = Check("C05", tier, "model_checking")
     c.cov["traces_validated_against_impl"] = 0
     dgram = model(c, tier)
     spec_to_impl(c, tier, dgram)
     impl_to_spec(c, tier)
+    long_stream(c)
     c.assumptions += [
         "ideal AEAD: any edit of a sealed unit, or any shift of the unit sequence, makes every later unit fail to open (the harness applies concrete edits: bit flips, drop, duplicate, swap, insert, splice from another session, reflection, truncation)",
         "Trojan carries no integrity of its own (TLS is expected underneath) and legacy Shadowsocks has no direction binding: both are outside the statement",
@@ -125,5 +138,11 @@ def run(tier):
 
 
 def replay(path):
-    print(json.dumps(json.load(open(path)), indent=1)[:4000])
+    o = json.load(open(path))
+    print(json.dumps(o, indent=1)[:4000])
+    if "chunk" in o.get("replay", {}):
+        rows = vh_json_lines(["c05-long"], timeout=900)
+        if any(not r["ok"] for r in rows):
+            print("VIOLATION property=C05 replay=%s" % path)
+            return 1
     return 0
